@@ -198,20 +198,20 @@ def gen_raw(rng, thorough):
         step = {"f": i, "stale": stale, "barrier": barrier}
         if r < 0.45 or not sim.st[i]:
             d = rng.choice(DELTAS)
-            step["via"] = rng.choice(["project", "simple", "factor", "factor_default"])
+            step["via"] = rng.choice(["project", "project", "simple", "factor", "factor_default", "fa_project"])
             if d == 1.0 and rng.random() < 0.3:
                 step["via"] = "project_default"
             step["delta"] = {"t": "scalar", "d": hx(d)}
             step["other_delta"] = hx(rng.choice([x for x in DELTAS if x != d]))
             delta = Fr(d)
         elif r < 0.7 and not key_edges and all(sim.st):
-            d0 = rng.choice([1.0, 1.0, 0.5, 0.25, 0.75])
+            d0 = rng.choice([1.0, 0.5, 0.5, 0.25, 0.75])
             step["via"] = "dynamic"
             step["delta"] = {"t": "dynamic", "d0": hx(d0)}
             delta = sim.dynamic(d0)
         else:
-            ds = {v: rng.choice([0.5, 0.25, 0.75, 0.125, 1.0, 0.875]) for v in allv}
-            step["via"] = "project"
+            ds = {v: rng.choice([0.5, 0.25, 0.75, 0.125, 0.5, 0.25, 1.0, 0.875]) for v in allv}
+            step["via"] = rng.choice(["project", "project", "fa_project"])
             step["delta"] = {"t": "pervar", "ds": [[v, hx(x)] for v, x in sorted(ds.items())]}
             delta = {v: Fr(x) for v, x in ds.items()}
         keys = list(sim.st[i].keys())
@@ -1049,9 +1049,27 @@ def run(ctx):
         if c["kind"] == "decl":
             ctx.hist("model_factors", len(c["mfactors"]))
             ctx.hist("sweeps", c["run"]["max_steps"])
+            ctx.hist("decl_features", "+".join(sorted(
+                {m["t"] for m in c["mfactors"]} | ({"no-prior-factors"} if not c["include"] else set())
+                | ({"single-factor-entry"} if c["entry"] == "single" else set())
+                | ({"early-stop"} if c["run"].get("stop") else set()))))
+            for sc in c["run"]["scripts"]:
+                for oc in sc:
+                    ctx.hist("outcome", oc["t"] if oc["t"] == "raise" else ("fit-ok" if oc["success"] else "fit-failed"))
+            ctx.hist("delta", c["run"]["delta"]["t"])
         else:
             ctx.hist("factors", len(c["factors"]))
             ctx.hist("updates", len(c["steps"]) if c["kind"] == "raw" else c["max_steps"] * len(c["order"]))
+            fs_ = c["factors"]
+            ctx.hist("max_sharing", max(sum(1 for f in fs_ if v in f) for v in {v for f in fs_ for v in f}))
+            for s_ in (c["steps"] if c["kind"] == "raw" else []):
+                ctx.hist("via", s_["via"])
+                ctx.hist("delta", s_["delta"]["t"] + ("=" + str(unhex(s_["delta"]["d"])) if s_["delta"]["t"] == "scalar" else ""))
+            if c["kind"] == "par":
+                ctx.hist("delta", c["delta"]["t"])
+        if "ok" in r and c["kind"] == "raw":
+            for o_ in r["ok"]["steps"]:
+                ctx.hist("projection", "proper" if o_["success"] else "improper-or-failed")
         if "exc" in r:
             ctx.oracle["failures"] += 1
             oracle_failed.add(i)
